@@ -73,7 +73,7 @@ func verifYield(point string, name string) {
 
 // Accessors for the harness (read-only views).
 
-func (p *Process) VerifName() string { return p.procConf.ReplicaName }
+func (p *Process) VerifName() string { return p.getName() }
 
 func (p *Process) VerifConf() *types.ProcessConfig { return p.procConf }
 
